@@ -6,6 +6,7 @@ use serde::{de::DeserializeOwned, Serialize};
 use serde_json::Value;
 use std::collections::BTreeMap;
 
+pub mod c15;
 pub mod c18;
 pub mod c19;
 
@@ -60,6 +61,10 @@ pub trait Prop {
 macro_rules! with_prop {
     ($id:expr, $P:ident => $body:expr) => {
         match $id {
+            "C15" => {
+                type $P = $crate::props::c15::C15;
+                Some($body)
+            }
             "C18" => {
                 type $P = $crate::props::c18::C18;
                 Some($body)
